@@ -262,6 +262,10 @@ func parseBatchTail(req *memcluster.Request) (ts int64, nvals []int) {
 	return
 }
 
+func trimTrace(op string) string {
+	return strings.TrimPrefix(strings.TrimPrefix(op, "traceU "), "trace ")
+}
+
 func hexIDs(ids [][]byte) string {
 	var p []string
 	for _, id := range ids {
@@ -790,7 +794,13 @@ func (w *world) finish(wg *sync.WaitGroup, outdir string, tag string) (op string
 	if hung == "" {
 		w.sess.Close()
 	}
-	return "trace " + strings.Join(words, " "), hung
+	// a cache that cannot purge for capacity (unbounded, or far larger than the number of keys of a run): the
+	// specification then also demands a reason for every removal
+	opw := "trace "
+	if w.capacity == 0 || w.capacity >= 1000 {
+		opw = "traceU "
+	}
+	return opw + strings.Join(words, " "), hung
 }
 
 // ---------- scenarios ----------
@@ -1485,7 +1495,7 @@ func replaySeq(op string) string {
 	if err != nil {
 		return "no-session"
 	}
-	return strings.TrimPrefix(tr, "trace ")
+	return trimTrace(tr)
 }
 
 func (rn *runner) sequential() {
@@ -1550,7 +1560,7 @@ func (rn *runner) sequential() {
 	if hung != "" {
 		rn.nhang++
 	}
-	rn.out.Case(sp.line(), strings.TrimPrefix(op, "trace "), fmt.Sprintf("seq/hosts%d/cap%d", nhosts, sp.capacity), true)
+	rn.out.Case(sp.line(), trimTrace(op), fmt.Sprintf("seq/hosts%d/cap%d", nhosts, sp.capacity), true)
 	// the same history is also judged by the specification
 	rn.out.Case(op, "accept", "seq-trace", true)
 	rn.out.Dist["seq-events/unprepared"] += strings.Count(op, ":un/")
